@@ -191,7 +191,8 @@ _SESS = ("Coq kernel + vm_compute; hand model Model/Session.v of Interpreter.int
 CLAIMED["C10"] = {
     "text": ("Theorems in coq/Props/C10.v about the session / module-loader state machine, for every module graph and history: require restores the module-load stack on every "
              "outcome at every nesting depth; after every command on either of two interpreter instances the load stack is empty and no module has run to its end twice; a failed "
-             "call changes no definition but the ones it wrote before failing; instances are separate. 'Repeating a failed call gives the same error and state' and the tie "
+             "call changes no definition but the ones it wrote before failing; instances are separate; the loader model never runs out of fuel for fewer module "
+             "files than its fuel, so these hold for every history without premise. 'Repeating a failed call gives the same error and state' and the tie "
              "to the code are decided by the correspondence: all histories up to length 3 (thorough: 4; length 5 sampled, not exhaustive) over a 13-command alphabet and random "
              "histories to length 30 on two instances, each failed call repeated (C10_repeat_partial)."),
     "note": _SESS,
@@ -199,7 +200,8 @@ CLAIMED["C10"] = {
 }
 CLAIMED["C11"] = {
     "text": ("Theorems in coq/Props/C11.v about the module loader, for every module graph: completed loads are exactly the cached modules, each once, preserved by every require "
-             "(nested, repeated, failing, cyclic); a module on the load stack is never loaded again underneath (a cycle is an error); a require changes only the names it "
+             "(nested, repeated, failing, cyclic); a module on the load stack is never loaded again underneath (a cycle is an error) and require terminates on every "
+             "module graph (recursion bounded by the cycle check); a require changes only the names it "
              "introduces (module name or alias, listed aliases, public names); names starting with an underscore are neither bound nor members of the module object. Tie: "
              "correspondence on generated module graphs on disk x importer histories with every import form (scope, load log, cache, shared module state), plus direct checks "
              "that module code cannot see the importer's variables."),
